@@ -299,6 +299,14 @@ func (st *State) loadAt(pi *PtrInfo, T types.Type) Val {
 	if sym && !open && !st.noWF {
 		// values read from the symbolic heap are well-formed Go values (slice 0 <= len <= cap, bounded sizes)
 		st.assumeSliceWF(v)
+		// a reference read from the untouched initial heap denotes an object that existed at entry: it cannot be one of
+		// the objects allocated on this path
+		kinds := leafKinds(T)
+		for i, t := range L {
+			if i < len(kinds) && (kinds[i] == lkRef || kinds[i] == lkPl) && t.Op == OSelect && t.Args[0].Op == OVar && strings.HasPrefix(t.Args[0].Name, "H0") {
+				st.assume(Ult(t, BVConst(freshRefBase, 64)))
+			}
+		}
 	}
 	return v
 }
